@@ -432,6 +432,8 @@ pub fn decode_sd(data: &[u8], with_fault: bool) -> SdCase {
         cmd0_ignored: d.pick(&[0u8, 0, 0, 1, 2]),
         ocr_extra: d.pick(&[0u8, 0, 0x20, 0x01, 0x29]),
         sluggish: false,
+        busy_stop_write: 0,
+        stop_gap: false,
     };
     let mut timing = timing;
     let use_crc = d.bool();
@@ -499,6 +501,10 @@ pub fn decode_sd(data: &[u8], with_fault: bool) -> SdCase {
     if !with_fault && d.u8() % 8 == 1 {
         timing.sluggish = true;
         timing.cmd0_ignored += 3;
+    }
+    if !with_fault {
+        timing.busy_stop_write = d.pick(&[0u16, 0, 3, 59, 12_000, 40_000]);
+        timing.stop_gap = d.bool();
     }
     let bg_seed = match d.u8() % 8 {
         1 => 0,
